@@ -162,6 +162,11 @@ class SgzCropper(SgzReader):
                                                                                                   xline_index_range,
                                                                                                   zslices_index_range)
 
+        # Units are addressed as in the default layout: other layouts can only be cropped by whole inline blocks
+        if (self.blockshape[0], self.blockshape[1]) != (4, 4) and not (
+                xline_index_range == (0, len(self.xlines)) and zslices_index_range == (0, len(self.zslices))):
+            raise IndexError("Files with this blockshape can only be cropped along the inline axis.")
+
         z_units = (pad(zslices_index_range[1], self.blockshape[2]) - zslices_index_range[0]) // 4
         xl_units = (pad(xline_index_range[1], self.blockshape[1]) - xline_index_range[0]) // 4
         il_units = (pad(iline_index_range[1], self.blockshape[0]) - iline_index_range[0]) // 4
